@@ -9,7 +9,7 @@ use std::str::FromStr;
 pub const META_C16: Meta = Meta {
     id: "C16",
     level: "exploration",
-    rule: "Faithful part: a generated circuit description {0-12 elements In/Clock/Out/other with labels from an adversarial pool (C, C_out, D, D_out, A_out_out, labels with spaces, &, <, non-ASCII, the format's own attribute keys Bits / InDefault / Label / Testdata, omitted), widths {absent,1,8,64,0,junk}, defaults {absent, number, negative, z=true, junk}; 0-5 Testcase elements with duplicate / absent labels and sources whose headers reference pins, `<pin>_out` forms and sometimes undeclared names} is rendered to .dig XML (entry order shuffled, unrelated entries and comments interleaved, indentation and CRLF varied, entities or CDATA) and parsed. Oracle from the description alone: Err iff some test has no header line / duplicate header names / a header name that is neither a pin label nor `<In/Clock pin>_out`; otherwise Ok with the multiset of signals equal to the description (width 1 if unspecified, default number / Z / 0), S bidirectional iff some header uses S_out, S is an In/Clock pin and no pin is labelled S_out, and test cases = (label or \"(unnamed)\", source verbatim) in document order; for every i load_test(i) must equal from_str(source_i).with_signals(file.signals) (both Ok and ==, or both Err with the same text), load_test_by_name = first test with that label, out-of-range index / unknown name = Err; 15% of the documents are also parsed through str::parse::<dig::File>() and 3% written to a scratch file and loaded through dig::File::open - same Ok/Err verdict, same signals and tests; the same path is then rewritten with ANOTHER document padded to the same length, its modification time set back, and opened again: open must return what the file holds now. Totality part: 6 corruptions of each rendered document (truncation, tag deletion, swapped closers, entity garbage, CRLF, BOM, non-ASCII) plus corruptions of the repo's own .dig fixtures must give Ok or Err, never a panic, and every load_test on an Ok result must not panic. Non-trivial = >= 2 pins of different direction and >= 1 test (or a corruption of such a document); distinct by document text.",
+    rule: "Faithful part (a third of the non-pin elements carry no <elementName> at all): a generated circuit description {0-12 elements In/Clock/Out/other with labels from an adversarial pool (C, C_out, D, D_out, A_out_out, labels with spaces, &, <, non-ASCII, the format's own attribute keys Bits / InDefault / Label / Testdata, omitted), widths {absent,1,8,64,0,junk}, defaults {absent, number, negative, z=true, junk}; 0-5 Testcase elements with duplicate / absent labels and sources whose headers reference pins, `<pin>_out` forms and sometimes undeclared names} is rendered to .dig XML (entry order shuffled, unrelated entries and comments interleaved, indentation and CRLF varied, entities or CDATA) and parsed. Oracle from the description alone: Err iff some test has no header line / duplicate header names / a header name that is neither a pin label nor `<In/Clock pin>_out`; otherwise Ok with the multiset of signals equal to the description (width 1 if unspecified, default number / Z / 0), S bidirectional iff some header uses S_out, S is an In/Clock pin and no pin is labelled S_out, and test cases = (label or \"(unnamed)\", source verbatim) in document order; for every i load_test(i) must equal from_str(source_i).with_signals(file.signals) (both Ok and ==, or both Err with the same text), load_test_by_name = first test with that label, out-of-range index / unknown name = Err; 15% of the documents are also parsed through str::parse::<dig::File>() and 3% written to a scratch file and loaded through dig::File::open - same Ok/Err verdict, same signals and tests; the same path is then rewritten with ANOTHER document padded to the same length, its modification time set back, and opened again: open must return what the file holds now. Totality part: 6 corruptions of each rendered document (truncation, tag deletion, swapped closers, entity garbage, CRLF, BOM, non-ASCII) plus corruptions of the repo's own .dig fixtures must give Ok or Err, never a panic, and every load_test on an Ok result must not panic. Non-trivial = >= 2 pins of different direction and >= 1 test (or a corruption of such a document); distinct by document text.",
     assumptions: &["documents with duplicate pin labels or junk widths/defaults are only checked for totality (the statement does not define them)", "a Testcase whose Label entry is present but empty, or whose dataString is empty, is outside the generated domain"],
     quick_cases: 40000,
     thorough_cases: 800000,
